@@ -162,7 +162,7 @@ def run(ctx: common.Ctx):
         "mask, mode); non-trivial = source and target differ")
     pairs = list(itertools.product(ALL_DTYPES, repeat=2))
     jobs = [(a, b, m) for a, b in pairs for m in ("lazy", "eager")]
-    outs = tables.pmap(outcome_row, jobs)
+    outs = tables.pmap(outcome_row, jobs, strict=True)
     model = common.model([f"cast {a} {b}" for a, b, _ in jobs])
     rows = []
     for (a, b, mode), o, m in zip(jobs, outs, model):
@@ -176,7 +176,7 @@ def run(ctx: common.Ctx):
             ctx.violation(f"astype/{a}->{b}/{kind}", f"astype({a} -> {b}) [{mode}] gives {o}, the cast protocol demands {want}",
                           {"source": a, "target": b, "mode": mode, "observed": o, "expected": want})
     cpairs = list(itertools.product(CORE, repeat=2))
-    couts = tables.pmap(cancast_row, cpairs)
+    couts = tables.pmap(cancast_row, cpairs, strict=True)
     cmodel = common.model([f"cancast {a} {b}" for a, b in cpairs])
     crow = []
     for (a, b), o, m in zip(cpairs, couts, cmodel):
@@ -223,7 +223,7 @@ end Gen.CastMatrix
         vjobs = keep
     res = tables.pmap(value_job, vjobs, chunk=6)
     n_vals = 0
-    for (a, b), r in zip(vjobs, res):
+    for (a, b), r in tables.pairs(ctx, vjobs, res):
         if isinstance(r, tables.Crashed):
             ctx.violation(f"astype/{a}->{b}/interpreter-crash", f"astype({a}->{b}) values: worker died", {"pair": [a, b]})
             continue
